@@ -46,7 +46,6 @@ def lruOp (j : Json) : Json :=
     ("url", jexc jchars (lruToUrl stems)),
     ("url_from_str", jexc jchars (lruToUrlStr lru)),
     ("hostname", jchars (pyHostname p.netloc)),
-    ("clean", jlist ((cleanTrailingPath stems).map jchars)),
     ("wf", jbool (wfParts p)),
     ("wf_sa", jbool (wfHostSA p.netloc)),
     ("nobar", jbool (noBar p)),
